@@ -331,3 +331,42 @@ def systematic() -> list:
         sch += attempt_steps("tcp_err") + [("idle",), ("tick",), ("tick",)]
         out.append(sch)
     return out
+
+
+def tokens_to_schedule(toks: list, variant: int) -> list:
+    """One history of Reconnect.tla events (printed by TLC, GenMode) -> schedule for the real ReconnectLogic over the
+    simulated network.  The recorded event stream is validated against the specification, so the translation
+    needs no oracle of its own; events whose precondition does not hold in the real run are skipped."""
+    sch: list = []
+    gap_cycle = ([], [("iter", 1)], [("idle",)])
+    for n, t in enumerate(toks):
+        k = t[0]
+        g = list(gap_cycle[(n + variant) % 3])
+        if k == "start":
+            sch += [("ev", "start")] + g
+        elif k == "stop":
+            sch += [("ev", "stop")] + g
+        elif k == "mdns":
+            sch += [("ev", "mdns", ("ptr", "a")[(n + variant) % 2] if t[1] else ("other", "other_ptr")[(n + variant) % 2])] + g
+        elif k in ("timer", "totimer"):
+            sch += [("tick",)] if k == "totimer" else [("iter", 1)]
+        elif k == "wait":
+            sch += [("adv", int(t[1]))]
+        elif k == "tcpup":
+            sch += [("ev", "resolve", "ok"), ("idle",), ("ev", "tcp", "ok")] + g
+        elif k == "fail":
+            auth, att = bool(t[1]), t[2]
+            if att == "starting":
+                # (authentication / encryption failures need the handshake: they come as a whole attempt)
+                sch += (attempt_steps(("auth_err", "enc_err")[(n + variant) % 2]) if auth else
+                        attempt_steps(("resolve_err", "tcp_err")[(n + variant) % 2])) + g
+            else:
+                sch += ([("ev", "chunk", [HELLO_OK, CONNECT_BAD])] if auth else [("ev", "eof")]) + g
+        elif k == "succeed":
+            sch += [("ev", "chunk", HELLO)] + g
+        elif k == "end":
+            sch += ([("ev", "chunk", [{"k": "discreq"}])] if t[1] else [("ev", "eof")]) + g
+        elif k == "i":
+            sch += [("iter", 1)]
+    sch += [("idle",), ("tick",), ("idle",), ("ev", "stop"), ("idle",), ("tick",), ("ev", "mdns", "ptr"), ("idle",)]
+    return sch
